@@ -238,7 +238,7 @@ def run_property(ctx, prop, seed_offset=0, tiers=None):
         for bi, beh in enumerate(r['behaviours']):
             # the same behaviour is replayed from equivalent internal storage states of the initial tensors
             # (lexsorted blocks / permuted block order / an explicitly stored zero block), chosen per behaviour
-            beh['variant'] = (bi + ctx.seed) % 3
+            beh['variant'] = (bi + ctx.seed) % 4
             findings, nsteps, _ = replay_behaviour(beh, want=(prop,) if prop != 'C01' else ('C01',))
             ctx.trace_ok(1)
             for n, st in enumerate(beh['steps']):
